@@ -140,10 +140,25 @@ func TestC18(t *testing.T) {
 		nfiles := rapid.IntRange(1, 3).Draw(rt, "nfiles")
 		tree := Tree{}
 		bigCase := rapid.IntRange(0, 11).Draw(rt, "bigsigned") == 0
+		// "spill": a file that ends on a block boundary is written with the leading blocks of the file
+		// that follows it in the signature appended
+		spill := -1
+		if !bigCase && rapid.IntRange(0, 7).Draw(rt, "spill") == 0 {
+			if nfiles < 2 {
+				nfiles = 2
+			}
+			spill = rapid.IntRange(0, nfiles-2).Draw(rt, "spillfile")
+		}
 		for i := 0; i < nfiles; i++ {
 			sz := genSize(rt, GenOpts{MaxMid: 300 * KiB}, "signed")
 			if bigCase && i == 0 {
 				sz = 4*MiB + rapid.IntRange(1, 5).Draw(rt, "bigblocks")*BlockSize + rapid.IntRange(0, 3).Draw(rt, "bigtail")*1000
+			}
+			if spill >= 0 && i == spill {
+				sz = rapid.IntRange(0, 3).Draw(rt, "spillblocks") * BlockSize
+			}
+			if spill >= 0 && i == spill+1 && rapid.Bool().Draw(rt, "spillnextbig") {
+				sz = 2*BlockSize + rapid.IntRange(0, 2).Draw(rt, "spillnexttail")*777
 			}
 			tree[fmt.Sprintf("f%d", i)] = &Entry{Kind: KFile, Data: genContent(rt, GenOpts{}, sz, 77, "signed")}
 		}
@@ -153,6 +168,17 @@ func TestC18(t *testing.T) {
 		fi := int64(rapid.IntRange(0, nfiles-1).Draw(rt, "fileindex"))
 		signed := tree[si.Container.Files[fi].Path].Data
 		written, mdesc := mutateWritten(rt, signed)
+		if spill >= 0 {
+			fi = int64(spill)
+			signed = tree[si.Container.Files[fi].Path].Data
+			next := tree[si.Container.Files[fi+1].Path].Data
+			k := rapid.IntRange(1, 2).Draw(rt, "spillcount") * BlockSize
+			if k > len(next) {
+				k = len(next)
+			}
+			written, mdesc = append(append([]byte{}, signed...), next[:k]...), fmt.Sprintf("followed by the first %d bytes of the next signed file", k)
+			Ev.ProbeIf(k > 0, "block_aligned_file_written_with_the_next_files_blocks_appended")
+		}
 		if bigCase && rapid.Bool().Draw(rt, "bigreseed") {
 			fi = 0
 			signed = tree[si.Container.Files[fi].Path].Data
